@@ -514,6 +514,10 @@ class Analyzer(object):
         bb = point[0]
         args = tuple(self.operand_expr(a, (bb, "term"), depth) for a in t.args)
         if t.callee:
+            d = short(t.callee["def"])
+            if d.endswith(("Option::expect", "Option::unwrap", "Option::unwrap_unchecked")) and args:
+                # payload of an Option: same value as `(x as Some).0` (the panic on None is C04's business)
+                return self._field(("variant", args[0], "Some"), "0")
             return ("call", t.callee["def"], t.callee.get("resolved"), args, bb, tuple(t.callee["gargs"]))
         f = self.operand_expr(t.func, (bb, "term"), depth)
         return ("call", "<indirect>", None, (f,) + args, bb, ())
@@ -707,12 +711,24 @@ class Analyzer(object):
         return b[0] in r
 
     # ---- guards --------------------------------------------------------------------------
-    def switch_info(self, bb):
+    def switch_info(self, bb, opt=False):
         """For a switch terminator: (cond_expr, {target_bb: label}). Labels: 'true'/'false' for bools,
-        variant names for enum discriminants, integers otherwise; 'otherwise' for the default edge."""
+        variant names for enum discriminants, integers otherwise; 'otherwise' for the default edge.
+        With opt=True a boolean test `x.is_some()` / `x.is_none()` is reported like a match on x
+        (subject x, labels Some/None), so that rules accept either idiom."""
         t = self.body.blocks[bb].term
         if t.kind != "switch":
             return None
+        if opt:
+            e, ls = self.switch_info(bb)
+            x = strip(e)
+            if x[0] == "call" and short(x[1]).endswith(("Option::is_some", "Option::is_none")) and x[3]:
+                some = "true" if short(x[1]).endswith("is_some") else "false"
+                out = {}
+                for tb, l in ls.items():
+                    out[tb] = ["Some" if some in l else "None"]
+                return (x[3][0], out)
+            return (e, ls)
         e = self.operand_expr(t.discr, (bb, "term"))
         labels = {}
         dty = t.j.get("dty", "")
